@@ -7,7 +7,8 @@ T4 = ["RLS"]
 PROOF_MODULES = ["GrpcProofs.Properties.C41"]
 THEOREMS = ["GrpcProofs.C41." + t for t in (
     "key_contents_spec", "key_none_iff_no_builder", "map_to_string_not_injective_counterexample",
-    "distinct_key_maps_distinct_cache_keys_counterexample", "cache_size_is_sum", "evicts_lru_first_stops_at_unevictable",
+    "distinct_key_maps_distinct_cache_keys_counterexample", "distinct_key_maps_distinct_cache_keys_partial",
+    "cache_size_is_sum", "cache_size_needs_contract", "evicts_lru_first_stops_at_unevictable",
     "lookback_sum_is_window_sum", "probability_formula", "window_is_30_seconds")]
 DESIGN_REF = "DESIGN.md section 8, C41"
 TECHNIQUE = ("Lean 4 theorems over three ported models (key builder as list/assoc-list functions; dataCache = map + LRU list with an "
@@ -60,7 +61,7 @@ def gen_cfg(rng):
         hs = []
         for _ in range(rng.randrange(0, 4)):
             key = rng.choice(KEYPOOL)
-            ns = "|".join(hx(rng.choice(HDRS)) for _ in range(rng.randrange(0, 4))) or "-"
+            ns = "|".join(hx(rng.choice(HDRS)) for _ in range(rng.choice([0, 1, 2, 3, 3, 4]))) or "-"
             hs.append("%s:%d:%s" % (hx(key), 1 if rng.random() < 0.03 else 0, ns))
         cs = []
         for _ in range(rng.randrange(0, 3)):
@@ -74,8 +75,8 @@ def gen_cfg(rng):
 
 def gen_md(rng):
     items = []
-    for h in rng.sample(["ha", "hb", "x-id", "hc", "Ha", "zz"], rng.randrange(0, 4)):
-        vals = [hx(rng.choice(VALS)) for _ in range(rng.randrange(0, 3))]
+    for h in rng.sample(["ha", "hb", "x-id", "hc", "Ha", "zz"], rng.choice([0, 1, 2, 3, 4, 5, 5])):
+        vals = [hx(rng.choice(VALS)) for _ in range(rng.choice([0, 1, 1, 2, 3]))]
         items.append(hx(h) + ":" + "|".join(vals))
     return ";".join(items) or "-"
 
@@ -123,6 +124,18 @@ def lookback_case(rng, n):
         else:
             ops.append("lsum %d" % t)
     return ops
+
+
+def throttle_directed():
+    t = 10 ** 9
+    # 8 throttles, no accepts: probability exactly 1/2; the draw 1/2 must not throttle, a hair below must
+    yield ["tnew"] + ["resp %d 1" % t] * 8 + ["should %d 512 1024" % t, "should %d 511 1024" % t, "should %d 512 1024" % t]
+    # 1 accept, 11 throttles: (12-2)/(12+8) = 1/2
+    yield ["tnew", "resp %d 0" % t] + ["resp %d 1" % t] * 11 + ["should %d 1 2" % t, "should %d 499 1000" % t]
+    # accepts dominate: probability negative, never throttles even with draw 0
+    yield ["tnew"] + ["resp %d 0" % t] * 5 + ["resp %d 1" % t] * 2 + ["should %d 0 1" % t]
+    # window edge: a throttle recorded 29.9 s ago still counts, 30.0 s ago does not
+    yield ["tnew"] + ["resp %d 1" % t] * 8 + ["should %d 511 1024" % (t + 29700 * 10 ** 6), "should %d 0 1024" % (t + 30000 * 10 ** 6)]
 
 
 def throttle_case(rng, n):
@@ -199,6 +212,8 @@ def gen(rng, tier):
         yield Case("rlskeys", rlskeys_case(rng, rng.randrange(3, 14)), "keys-%d" % i)
     for i in range(n):
         yield Case("rlsadaptive", lookback_case(rng, rng.randrange(5, 60)), "lookback-%d" % i)
+    for i, ops in enumerate(throttle_directed()):
+        yield Case("rlsadaptive", ops, "throttle-directed-%d" % i)
     for i in range(n // 2):
         yield Case("rlsadaptive", throttle_case(rng, rng.randrange(10, 80)), "throttle-%d" % i)
     for i in range(n):
